@@ -32,12 +32,16 @@ theorem pe_raiseSig (st : St) (s : Int) : PendExt st (raiseSig st s) := by
   · split
     · exact PendExt.of_eq rfl
     · split
-      · intro x hx
-        show x ∈ setInsert s st.pendingSig
-        unfold setInsert
+      · unfold sigRecord
         split
-        · exact hx
-        · exact List.mem_cons_of_mem _ hx
+        · intro x hx
+          show x ∈ setInsert s st.pendingSig
+          unfold setInsert
+          split
+          · exact hx
+          · exact List.mem_cons_of_mem _ hx
+        · exact PendExt.of_eq rfl
+        · exact PendExt.refl st
       · split
         · exact PendExt.of_eq rfl
         · exact PendExt.refl st
@@ -620,7 +624,7 @@ theorem dispatchSignals_logged (fuel : Nat) (st : St) (k : KInv st) (hok : (disp
     whatever they did; every harness watch of such a signal that is in the list then and still at the end of
     the iteration has its FIRE entry in the log of the iteration. -/
 theorem tick_signal_reaches_logged (fuel : Nat) (st : St) (nohang : Bool) (k : KInv st) (hs : st.cfg.errnoSaved = true)
-    (hok0 : st.isOk = true) (hok1 : (nextTimerMsec st).1.isOk = true)
+    (ho : st.observer = .self) (hok0 : st.isOk = true) (hok1 : (nextTimerMsec st).1.isOk = true)
     (hok2 : (ppoll (nextTimerMsec st).1 (tickTimeout nohang (nextTimerMsec st).2)).1.isOk = true)
     (hint : (ppoll (nextTimerMsec st).1 (tickTimeout nohang (nextTimerMsec st).2)).2 = none)
     (hok3 : (invokeTimers fuel (ppoll (nextTimerMsec st).1 (tickTimeout nohang (nextTimerMsec st).2)).1).isOk = true)
@@ -637,7 +641,7 @@ theorem tick_signal_reaches_logged (fuel : Nat) (st : St) (nohang : Bool) (k : K
   have kT : KInv (invokeTimers fuel (ppoll (nextTimerMsec st).1 (tickTimeout nohang (nextTimerMsec st).2)).1) :=
     (((g3_nextTimerMsec st).trans (g3_ppoll _ _)).kstep.trans (k_invokeTimers _ _)) k
   intro s hsr hpend b hb hfin hsig hslot
-  have hp1 := (ppoll_eintr _ _ hint).2.2 s hpend
+  have hp1 := (ppoll_eintr _ _ (by rw [observer_nextTimerMsec]; exact ho) hint).2.2 s hpend
   have hp2 := pe_invokeTimers fuel _ s hp1
   exact dispatchSignals_logged fuel _ kT hok s hsr hp2 b hb hfin hsig hslot
 
